@@ -824,6 +824,16 @@ class Shaper:
         return DictV(items)
 
     def _comp(self, e, env, depth, kind):
+        # a comprehension over a literal sequence of known length is that sequence, element by element
+        if kind == "list" and len(e.generators) == 1 and isinstance(e.generators[0].target, ast.Name) and not e.generators[0].ifs:
+            it0 = self.eval(e.generators[0].iter, env, depth)
+            if isinstance(it0, Seq) and it0.items and not any(isinstance(x, Star) for x in it0.items):
+                out = []
+                for item in it0.items:
+                    env3 = env.copy()
+                    env3.vars[e.generators[0].target.id] = item
+                    out.append(self.eval(e.elt, env3, depth))
+                return Seq(out)
         env2 = env.copy()
         gens = []
         for g in e.generators:
